@@ -117,6 +117,46 @@ func selfTest(c *Check) {
 	if probe2.violations != 0 {
 		c.fail("selftest: the replay comparator rejected 1 + 2 = 3")
 	}
-	c.extra["explanation"] = "binding self-test: recorded trace accepted; corrupted ip / stack height / dropped step / steps after cancel rejected; falsified replay expectation reported"
+	// the synchronisation trace specification: a disciplined pair of goroutines is accepted; with one goroutine's
+	// lock events removed, or one unlock removed, it is rejected
+	mkConc := func(dropLocksOf int, dropUnlockOf int) string {
+		var sb strings.Builder
+		for g := 1; g <= 2; g++ {
+			evs := []concEvent{{G: g, E: "lock", X: "S", O: "S"}, {G: g, E: "wr", X: "S.vm", O: "S"}, {G: g, E: "rd", X: "S.n", O: "S", C: true},
+				{G: g, E: "wr", X: "S.n", O: "S", C: true}, {G: g, E: "clock", X: "cache-lock"}, {G: g, E: "crd", X: "cache"}, {G: g, E: "cunlock", X: "cache-lock"},
+				{G: g, E: "unlock", X: "S", O: "S"}}
+			for _, e := range evs {
+				if g == dropLocksOf && (e.E == "lock" || e.E == "unlock") {
+					continue
+				}
+				if g == dropUnlockOf && e.E == "unlock" {
+					continue
+				}
+				b, _ := json.Marshal(e)
+				sb.Write(b)
+				sb.WriteByte('\n')
+			}
+		}
+		return sb.String()
+	}
+	concCfg := "SPECIFICATION Spec\nCONSTANT Events <- Recorded\nINVARIANT NoDataRace\nINVARIANT NoLostUpdate\nINVARIANT MutualExclusion\nINVARIANT Balanced\nINVARIANT NoDeadlock\nINVARIANT LockDiscipline\nCHECK_DEADLOCK FALSE\n"
+	for _, tc := range []struct {
+		name       string
+		events     string
+		wantAccept bool
+	}{{"conc: disciplined goroutines", mkConc(0, 0), true}, {"conc: one goroutine unlocked", mkConc(2, 0), false}, {"conc: an unlock missing", mkConc(0, 1), false}} {
+		res, err := runTLC(tlcOpts{Module: "Trace_Conc", Cfg: concCfg, Extra: map[string]string{"conc.ndjson": tc.events}})
+		if err != nil {
+			c.fail("selftest " + tc.name + ": " + err.Error())
+			continue
+		}
+		accepted := res.Violation == ""
+		fmt.Printf("selftest %-28s accepted=%v (violated %q)\n", tc.name, accepted, res.Violation)
+		if accepted != tc.wantAccept {
+			c.fail(fmt.Sprintf("selftest %s: accepted=%v, want %v", tc.name, accepted, tc.wantAccept))
+		}
+		c.count("selftest|"+tc.name, true)
+	}
+	c.extra["explanation"] = "binding self-test: recorded trace accepted; corrupted ip / stack height / dropped step / steps after cancel rejected; falsified replay expectation reported; Trace_Conc accepts disciplined goroutines and rejects a goroutine without its lock events and a missing unlock"
 	c.sample("selftest")
 }
